@@ -83,7 +83,7 @@ def _expandable(fn, call, is_method_call):
     if any(isinstance(n, (ast.Yield, ast.YieldFrom)) for n in _own_nodes(fn)):
         return None
     a = fn.args
-    if a.vararg or a.kwarg or any(isinstance(x, ast.Starred) for x in call.args) or any(k.arg is None for k in call.keywords):
+    if a.kwarg or any(isinstance(x, ast.Starred) for x in call.args) or any(k.arg is None for k in call.keywords):
         return None
     params = [x.arg for x in a.posonlyargs + a.args]
     bind = {}
@@ -95,12 +95,16 @@ def _expandable(fn, call, is_method_call):
                 return None
         bind[params[0]] = call.func.value
         params = params[1:]
-    if len(call.args) > len(params):
+    if len(call.args) > len(params) and not a.vararg:
         return None
     order = []
     for p_, v in zip(params, call.args):
         bind[p_] = v
         order.append(p_)
+    if a.vararg:
+        # def h(vm, *rest): the surplus positional arguments, as the tuple the helper sees
+        bind[a.vararg.arg] = ast.Tuple(list(call.args[len(params):]), ast.Load())
+        order.append(a.vararg.arg)
     kwonly = [x.arg for x in a.kwonlyargs]
     for k in call.keywords:
         if k.arg in bind or (k.arg not in params and k.arg not in kwonly):
@@ -172,6 +176,8 @@ class _Renamer(ast.NodeTransformer):
 
 def _locals_of(fn):
     names = {x.arg for x in fn.args.posonlyargs + fn.args.args + fn.args.kwonlyargs}
+    if fn.args.vararg:
+        names.add(fn.args.vararg.arg)
     for n in _own_nodes(fn):
         if isinstance(n, ast.Name) and isinstance(n.ctx, (ast.Store, ast.Del)):
             names.add(n.id)
